@@ -102,7 +102,7 @@ SPEC = {
     'id': 'C10',
     # C10(b): besides its own cursor model (match) C10 re-audits the in-bounds / totality theorems that the other properties
     # proved about the manual index and iterator cores named in C10's anchors (they live with the property that models the core)
-    'lean_modules': ['AITB.Props.C10', 'AITB.Props.C10Util', 'AITB.Props.C10Choose', 'AITB.Props.C10Sites', 'AITB.Props.C10FG', 'AITB.Props.C20', 'AITB.Props.C11Traces', 'AITB.Props.C12Interp', 'AITB.Props.C12InterpValue', 'AITB.Props.C12Prune', 'AITB.Props.C12PruneStrong', 'AITB.Props.C08Dense',
+    'lean_modules': ['AITB.Props.C10', 'AITB.Props.C10Util', 'AITB.Props.C10Choose', 'AITB.Props.C10Sites', 'AITB.Props.C10FG', 'AITB.Props.C10Naive', 'AITB.Props.C10Union', 'AITB.Props.C10BG', 'AITB.Props.C20', 'AITB.Props.C11Traces', 'AITB.Props.C12Interp', 'AITB.Props.C12InterpValue', 'AITB.Props.C12Prune', 'AITB.Props.C12PruneStrong', 'AITB.Props.C08Dense',
                      'AITB.Props.C08', 'AITB.Props.C08Vose', 'AITB.Props.C18', 'AITB.Props.C14', 'AITB.Props.C14c', 'AITB.Props.C19', 'AITB.Props.C17', 'AITB.Props.C20h', 'AITB.Props.C06', 'AITB.Props.C06Factored', 'AITB.Props.C08Models', 'AITB.Props.C04', 'AITB.Props.C09a'],
     'theorems': [# round 4: shared index helpers one level below the anchored code
                  'AITB.CursorUtil.advance_spec', 'AITB.CursorUtil.advance_total', 'AITB.CursorUtil.advance_empty_oob', 'AITB.CursorUtil.advance_lowest',
@@ -113,6 +113,9 @@ SPEC = {
                  'AITB.CursorUtil.veccmp_no_oob', 'AITB.CursorUtil.veccmp_oob_witness', 'AITB.CursorUtil.sortedContains_no_oob',
                  'AITB.FGCursor.recPush_spec', 'AITB.FGCursor.nbLoop_eq_rec', 'AITB.FGCursor.mergeNeighbours_spec', 'AITB.FGCursor.addFactor_keeps_inv',
                  'AITB.FGCursor.eraseVar_keeps_inv', 'AITB.FGCursor.fg_history_safe', 'AITB.FGCursor.eraseVar_asymmetric_witness',
+                 'AITB.CursorUtil.naive_rows_first', 'AITB.CursorUtil.naive_row_cache_correct', 'AITB.CursorUtil.naive_stale_row_witness', 'AITB.CursorUtil.naive_index_in_range',
+                 'AITB.CursorUtil.setDiffLoop_eq_rec', 'AITB.CursorUtil.setUnion_is_sorted_union',
+                 'AITB.BGCursor.selectStep_total', 'AITB.BGCursor.selectLoop_total', 'AITB.BGCursor.selectLoop_overrun_witness', 'AITB.BGCursor.selection_misaligns_distances',
                  'AITB.Cursor.matchLoop_total', 'AITB.Cursor.match_no_oob', 'AITB.Cursor.matchOrig_oob_witness', 'AITB.Cursor.uses_subset_provides',
                  'AITB.Trie.trie_cursor_refines_spec', 'AITB.Trie.applyCursor_eq',                      # Trie::applyFilters k-way cursor loop, getAllIds/size/erase
                  'AITB.Learn.updateTraces_spec', 'AITB.Learn.updateTraces_nodup',                        # swap-and-pop trace loops (OffPolicyBase, SARSAL)
@@ -135,6 +138,10 @@ SPEC = {
     'timeout': {'quick': 600, 'thorough': 3000},
     'rule': 'one case per instantiation unit (class template x library type satisfying its concept, member templates via odr-use) plus exhaustive pairs of partial assignments '
             'over all small factor spaces for the two-cursor cores; non-trivial = both operands non-empty / any instantiation unit',
-    'modelled': ['Factored::match two-cursor scan (checked-access cursor model)'],
+    'modelled': ['Factored::match two-cursor scan (checked-access cursor model)',
+                 'SubsetEnumerator::advance/isValid/reset, nChooseK, findVerticesNaive row cache (AITB.Model.CursorUtil)',
+                 'set_union_inplace (set_difference into back_inserter with live cursors + inplace_merge), sequential_sorted_contains/find, veccmp (AITB.Model.CursorUtil)',
+                 'FactorGraph::getFactor neighbour index loop and erase find-then-erase, over histories (AITB.Model.FGCursor)',
+                 'BeliefGenerator::expandBeliefList selection loop with its double swap (AITB.Model.BGCursor)'],
     'assumptions': ['g++ -fsyntax-only is the judge of instantiability', 'uninitialised reads are only visible where the poisoned heap changes an output (no MSan offline)'],
 }
